@@ -779,6 +779,19 @@ func (e *sched) binop(st *sState, x *ssa.BinOp) sVal {
 			return r
 		}
 	}
+	// pointers to modelled objects compare by identity (aliasing of receiver and operands is a concrete fact of a run)
+	if x.Op == token.EQL || x.Op == token.NEQ {
+		if pa, ok := a.(sPtr); ok {
+			if pb, ok := b.(sPtr); ok {
+				return sBool{(pa == pb) == (x.Op == token.EQL)}
+			}
+		}
+		if pa, ok := a.(pObj); ok {
+			if pb, ok := b.(pObj); ok {
+				return sBool{(pa == pb) == (x.Op == token.EQL)}
+			}
+		}
+	}
 	// concrete
 	if ai, ok := a.(sInt); ok {
 		if bi2, ok := b.(sInt); ok {
